@@ -72,7 +72,9 @@ def analyse_client(case, ir):
     prev_idle = 0
     ndials = 0
     for (t, op, n), (res, idle, sess) in zip(ops, steps):
-        if res in ("err", "panic", "stuck", "unknown"):
+        if res == "err":
+            out.append(Finding("request_failed", "the request at %d failed (create_proxy_stream returned an error) although the server side is healthy: it was given a session it could not open a stream on" % t))
+        elif res in ("panic", "stuck", "unknown"):
             out.append(Finding("malformed", "operation %s at %d ended with %s" % (op, t, res)))
         flags = [c for c, _ in sess]
         if len(sess) < nsess:
@@ -297,7 +299,7 @@ def pool_nontrivial(args):
 
 REAL_CASES = [
     # sequential requests over loopback TLS (real time): the dial pattern and the connections accepted
-    ("real-seq", ["1000", "2000", "1", "40:r", "120:d0", "200:r", "280:d0", "360:r", "440:d1", "520:r"]),
-    # min_idle 0, a stream stays open across two reaper passes (interval = timeout = 300 ms), then a new request
-    ("real-reap", ["300", "300", "0", "40:r", "300:t", "600:t", "700:r"]),
+    ("real-seq", ["2000", "4000", "1", "100:r", "300:d0", "500:r", "700:d0", "900:r", "1100:d1", "1300:r"]),
+    # min_idle 0, a stream stays open across two reaper passes (interval = timeout = 1.5 s), then a new request
+    ("real-reap", ["1500", "1500", "0", "200:r", "1500:t", "3000:t", "3500:r"]),
 ]
